@@ -1264,16 +1264,20 @@ ErrorCode RobustPath::spine(Array<Vec2> &result) const {
         double u1 = 1;
         double u2 = 0;
         ErrorCode err = spine_intersection(*sub0, *sub1, u1, u2);
-        if (err != ErrorCode::NoError) {
-            // Do not trim with the parameters of a failed search: keep both
-            // sections whole and connect them
-            error_code = err;
+        if (err != ErrorCode::NoError) error_code = err;
+        // Do not trim with the parameters of a failed search, nor with a far
+        // crossing found along an extrapolated curve (a valid intersection
+        // either trims both curves or extends both): keep both sections whole
+        // and connect them
+        const bool connect =
+            err != ErrorCode::NoError || (u1 > 1 && u2 > 0) || (u1 < 1 && u2 < 0);
+        if (connect) {
             u1 = 1;
             u2 = 0;
         }
         if (u2 < 1) {
             if (u1 > u0) spine_points(*sub0, u0, u1, result);
-            if (err != ErrorCode::NoError) result.append(spine_position(*sub1, 0));
+            if (connect) result.append(spine_position(*sub1, 0));
             u0 = u2;
             sub0 = sub1;
         }
@@ -1365,17 +1369,20 @@ ErrorCode RobustPath::to_polygons(bool filter, Tag tag, Array<Polygon *> &result
                 double u2 = 0;
                 ErrorCode err =
                     left_intersection(*sub0, *offset0, *width0, *sub1, *offset1, *width1, u1, u2);
-                if (err != ErrorCode::NoError) {
-                    // Do not trim with the parameters of a failed search:
-                    // keep both sections whole and connect them
-                    error_code = err;
+                if (err != ErrorCode::NoError) error_code = err;
+                // Do not trim with the parameters of a failed search, nor with
+                // a far crossing found along an extrapolated edge (a valid
+                // intersection either trims both edges or extends both): keep
+                // both sections whole and connect them
+                const bool connect =
+                    err != ErrorCode::NoError || (u1 > 1 && u2 > 0) || (u1 < 1 && u2 < 0);
+                if (connect) {
                     u1 = 1;
                     u2 = 0;
                 }
                 if (u2 < 1) {
                     if (u1 > u0) left_points(*sub0, *offset0, *width0, u0, u1, left_side);
-                    if (err != ErrorCode::NoError)
-                        left_side.append(left_position(*sub1, *offset1, *width1, 0));
+                    if (connect) left_side.append(left_position(*sub1, *offset1, *width1, 0));
                     u0 = u2;
                     sub0 = sub1;
                     offset0 = offset1;
@@ -1398,17 +1405,20 @@ ErrorCode RobustPath::to_polygons(bool filter, Tag tag, Array<Polygon *> &result
                 double u2 = 0;
                 ErrorCode err =
                     right_intersection(*sub0, *offset0, *width0, *sub1, *offset1, *width1, u1, u2);
-                if (err != ErrorCode::NoError) {
-                    // Do not trim with the parameters of a failed search:
-                    // keep both sections whole and connect them
-                    error_code = err;
+                if (err != ErrorCode::NoError) error_code = err;
+                // Do not trim with the parameters of a failed search, nor with
+                // a far crossing found along an extrapolated edge (a valid
+                // intersection either trims both edges or extends both): keep
+                // both sections whole and connect them
+                const bool connect =
+                    err != ErrorCode::NoError || (u1 > 1 && u2 > 0) || (u1 < 1 && u2 < 0);
+                if (connect) {
                     u1 = 1;
                     u2 = 0;
                 }
                 if (u2 < 1) {
                     if (u1 > u0) right_points(*sub0, *offset0, *width0, u0, u1, right_side);
-                    if (err != ErrorCode::NoError)
-                        right_side.append(right_position(*sub1, *offset1, *width1, 0));
+                    if (connect) right_side.append(right_position(*sub1, *offset1, *width1, 0));
                     u0 = u2;
                     sub0 = sub1;
                     offset0 = offset1;
@@ -1512,16 +1522,17 @@ ErrorCode RobustPath::element_center(const RobustPathElement *el, Array<Vec2> &r
         double u1 = 1;
         double u2 = 0;
         ErrorCode err = center_intersection(*sub0, *offset0, *sub1, *offset1, u1, u2);
-        if (err != ErrorCode::NoError) {
-            // Do not trim with the parameters of a failed search: keep both
-            // sections whole and connect them
-            error_code = err;
+        if (err != ErrorCode::NoError) error_code = err;
+        // See to_polygons
+        const bool connect =
+            err != ErrorCode::NoError || (u1 > 1 && u2 > 0) || (u1 < 1 && u2 < 0);
+        if (connect) {
             u1 = 1;
             u2 = 0;
         }
         if (u2 < 1) {
             if (u1 > u0) center_points(*sub0, *offset0, u0, u1, result);
-            if (err != ErrorCode::NoError) result.append(center_position(*sub1, *offset1, 0));
+            if (connect) result.append(center_position(*sub1, *offset1, 0));
             u0 = u2;
             sub0 = sub1;
             offset0 = offset1;
